@@ -9,7 +9,7 @@ from ..execu import run
 from ..runner import short
 
 ID = "C06"
-N = {"quick": 9000, "thorough": 300000}
+N = {"quick": 36000, "thorough": 300000}
 TIME_BUDGET = {"quick": 45, "thorough": 480}
 MIN_NONTRIVIAL = {"quick": 300, "thorough": 3000}
 RULE = ("cases = generated declaration (Schema / DataClass / @parse function with keyword parameters; 1-5 fields over the Field "
